@@ -165,6 +165,7 @@ class Cap(object):
         self.seen_obl = {}
         self.peeling = False
         self.loop_stack = []
+        self.pending_gotos = []      # (label name, state, function name): forward jumps waiting for their label
         self.deadline = None          # absolute time after which run_function() abandons the current entry state
 
     # ------------------------------------------------------------------ obligations
@@ -181,6 +182,19 @@ class Cap(object):
             return
         bad = st.cons + [(-goal) - 1]
         und = any(s in st.imprecise for s in goal.syms())
+        if not und and st.imprecise:
+            # the quantities the goal speaks about are tied, through the path's constraints, to a value nothing is known about (a
+            # loop-summary symbol without a surviving invariant, unmodelled memory): whether this state exists is not established
+            comp = set(goal.syms())
+            grew = True
+            cons_syms = [set(c_.syms()) for c_ in st.cons]
+            while grew:
+                grew = False
+                for cs_ in cons_syms:
+                    if cs_ & comp and not cs_ <= comp:
+                        comp |= cs_
+                        grew = True
+            und = any(s_ in st.imprecise for s_ in comp)
         if DEBUG_LOOPS and node.get("l") == int(os.environ.get("LA_DEBUG_LINE", "0")):
             print("   OBL %s goal %r und=%s cons=%r path=%s" % (kind, goal, und, st.cons, st.path[-8:]))
         wit = None if und else model(bad)
@@ -1076,6 +1090,10 @@ class Cap(object):
             ln = fresh("sl")
             st.cons.append(Lin.sym(ln))
             st.cons.append(r.nul - v[2] - Lin.sym(ln))
+            # the byte the string starts with was read and found non-zero on this path: the string is not empty
+            c0 = st.heap.get(("cell", v[1], v[2]))
+            if c0 is not None and c0[0] == "i" and (entails(st.cons, c0[1] - 1) or entails(st.cons, Lin.const(0) - c0[1] - 1)):
+                st.cons.append(Lin.sym(ln) - 1)
             # the first terminator at or after v is ln bytes on: that is a known NUL position too, and the string length
             # when v is the start of the buffer
             r.nul = v[2] + Lin.sym(ln)
@@ -1880,6 +1898,17 @@ class Cap(object):
         if k == "block":
             states = [st]
             for c in n.get("ch", []):
+                if c.get("k") == "label" and self.pending_gotos:
+                    # forward jumps to this label (goto line_done; ... line_done: cleanup) arrive here
+                    fname_ = self.cur_fn.name if self.cur_fn else None
+                    here_ = [g_ for g_ in self.pending_gotos if g_[0] == c.get("n") and g_[2] == fname_ and g_[3] == self.depth]
+                    if here_:
+                        self.pending_gotos = [g_ for g_ in self.pending_gotos if not (g_[0] == c.get("n") and g_[2] == fname_ and g_[3] == self.depth)]
+                        states = states + [g_[1] for g_ in here_]
+                if not states:
+                    if c.get("k") == "label" or any(y.get("k") == "label" for y in walk(c)):
+                        continue          # nothing flows in here yet; a later jump may still target a label further down
+                    break
                 nxt = []
                 for s in states:
                     o = self.exec(c, s)
@@ -1889,7 +1918,7 @@ class Cap(object):
                 states = self.merge(nxt)
                 if len(states) > self.MAX_STATES:
                     raise TooManyStates()
-                if not states:
+                if not states and not self.pending_gotos:
                     break
             out["norm"] = states
             for key in ("brk", "cont", "ret"):
@@ -1980,6 +2009,12 @@ class Cap(object):
         if k == "label":
             return self.exec(n["sub"], st)
         if k == "goto":
+            fn_ = self.cur_fn
+            lab_ = [y for y in walk(fn_.body) if y.get("k") == "label" and y.get("n") == n.get("n")] if fn_ is not None else []
+            if self.record and lab_ and lab_[0]["i"] > n["i"] and len(self.pending_gotos) < 64:
+                # a forward jump: the state continues at the label (picked up by the block that holds it)
+                self.pending_gotos.append((n.get("n"), st, fn_.name, self.depth))
+                return out
             self.notes.append("goto in %s: path abandoned" % (self.cur_fn.name if self.cur_fn else "?"))
             return out
         # expression statement
